@@ -50,8 +50,10 @@ def semantic_digest(r):
 
 
 def step_key(dv, op):
-    return {"op": op.kind, "cls": op.cls, "wrappers": E.wrappers_label(dv),
-            "layers": str(min(len(dv.layers), 3))}
+    k = {"op": op.kind, "cls": op.cls, "wrappers": E.wrappers_label(dv),
+         "layers": str(min(len(dv.layers), 3))}
+    k.update(B.mixed_keys(dv, op.npath))
+    return k
 
 
 def run_shard(spec):
@@ -90,6 +92,7 @@ def run_shard(spec):
                 twin = E.fresh_apply(before, op)
                 if semantic_digest(twin) != semantic_digest(r):
                     k = {"effect": "history-dependent-result", "op": op.kind, "cls": op.cls}
+                    k.update(B.mixed_keys(dv, op.npath))
                     for name, val in (last_ok or {}).items():
                         k["culprit_" + name] = val
                     B.record(res, k, {"text": before, "op": [op.kind, op.npath, op.value],
